@@ -293,6 +293,7 @@ type vWorld struct {
 	notifyC  chan error
 	notifs   []bool
 	nsess    int
+	accepted int // SyncStart messages that opened a session (Seq advanced)
 
 	shortTO   time.Duration // duration of the short real timers of this run
 	timerUsed bool          // the script of this run needs a finder / hash-fetcher timer
@@ -512,7 +513,8 @@ func (w *vWorld) onAddBlock(msg *message.AddBlock, now time.Time) {
 // ---------------------------------------------------------------- world construction
 
 func newWorld(par vParams, ch vChains, rng *rand.Rand) *vWorld {
-	w := &vWorld{par: par, ch: ch, rng: rng, sig: make(chan struct{}, 1), reqs: map[string]*vOut{}, rno: map[string]int{}}
+	w := &vWorld{par: par, ch: ch, rng: rng, sig: make(chan struct{}, 1), reqs: map[string]*vOut{}, rno: map[string]int{},
+		notifyC: make(chan error, 64)}
 	common := vExtend(nil, ch.Fork)
 	local := vExtend(common, ch.Lbest)
 	w.remote = vExtend(common, ch.Rbest)
